@@ -99,6 +99,7 @@ def build_call(cur, step):
 
 class C14(PureCheck):
     pid = "C14"
+    subst_every = 6
     warm_every = 3
     rule = ("bases: str (also str carrying 7-bit / 8-bit SGR sequences, judged as the same call on its parse) and Layouts(2,2) over 4 attribute records (explicit False included); attribute maps: "
             "{none,red,gray} fg x {none,blue,black} bg x {absent,False,True}^{bold,underline,invert}, each in every spelling "
